@@ -505,9 +505,12 @@ func postprocessParsed(lookup objLookup) {
 			}
 		}
 	}
+	// Same ACL may occur multiple times in raw file.
 	for _, l := range lookup["ip access-list extended"] {
-		for _, c := range l[0].sub {
-			postprocessIOSACL(c)
+		for _, acl := range l {
+			for _, c := range acl.sub {
+				postprocessIOSACL(c)
+			}
 		}
 	}
 	// Move crypto map interface commands to different prefix for
